@@ -183,6 +183,9 @@ def gate_lazy_eager(mk, geom, contract, tform):
                 check_vec(mk, f"contract={contract} where={where} transpose", before, out, G, dims, where, sinds, transpose=True)
                 out = psi.gate(Gin, where if n > 1 else where[0], contract=contract, dagger=True)
                 check_vec(mk, f"contract={contract} where={where} dagger", before, out, G, dims, where, sinds, dagger=True)
+                # documented: transpose is "implied by dagger" - giving both flags is the adjoint, not conj(G)
+                out = psi.gate(Gin, where if n > 1 else where[0], contract=contract, dagger=True, transpose=True)
+                check_vec(mk, f"contract={contract} where={where} dagger+transpose (== dagger)", before, out, G, dims, where, sinds, dagger=True)
                 check_array_untouched(mk, f"contract={contract} where={where} after transpose / dagger use", Gin, Gin0)
 
 
@@ -338,6 +341,24 @@ def gate_operator_network(mk, which, contract, where):
             "sandwich": lambda: ref.matmul(ref.matmul(M, Xd), ref.dag(M))}[which]()
     mk.same(f"which={which} transpose: outer labels unchanged", set(out.outer_inds()), set(up + lo))
     mk.eq(f"which={which} transpose where={where}: dense as documented (G replaced by G^T)", od, want)
+    # both flags: the adjoint ("transpose is implied by dagger")
+    out = X.gate(Gin, where if len(where) > 1 else where[0], which=which, contract=contract, dagger=True, transpose=True)
+    od = ref.tn_dense(out, tuple(up) + tuple(lo)).reshape(2 ** L, 2 ** L)
+    M = ref.dag(E)
+    want = {"upper": lambda: ref.matmul(M, Xd), "lower": lambda: ref.matmul(Xd, np.asarray(M).T),
+            "sandwich": lambda: ref.matmul(ref.matmul(M, Xd), ref.dag(M))}[which]()
+    mk.eq(f"which={which} dagger+transpose where={where}: same as dagger", od, want)
+    # the named entry points gate_<which> / gate_<which>_ (in place) do what gate(which=...) does
+    plain = {"upper": lambda: ref.matmul(E, Xd), "lower": lambda: ref.matmul(Xd, np.asarray(E).T),
+             "sandwich": lambda: ref.matmul(ref.matmul(E, Xd), ref.dag(E))}[which]()
+    for alias in (f"gate_{which}", f"gate_{which}_"):
+        X2 = X.copy()
+        out = getattr(X2, alias)(Gin, where if len(where) > 1 else where[0], contract=contract)
+        od = ref.tn_dense(out, tuple(up) + tuple(lo)).reshape(2 ** L, 2 ** L)
+        mk.same(f"{alias}: returns the receiver iff in place", out is X2, alias.endswith("_"))
+        mk.eq(f"{alias} where={where}: dense as documented for which={which}", od, plain)
+        if not alias.endswith("_"):
+            mk.eq(f"{alias}: receiver value untouched", ref.tn_dense(X2, tuple(up) + tuple(lo)).reshape(2 ** L, 2 ** L), Xd)
 
 
 @obligation(PROP, params=[{"contract": c, "D": D, "_tiers": ("quick", "thorough") if D == 1 or c in (False, True) else ("thorough",)}
@@ -786,9 +807,12 @@ def gate_simple_two_site(mk, geom, where, opt, sm, ip):
 
 @obligation(PROP, params=[{"geom": g, "where": w, "opt": o, "path": p}
                           for g, w in (("chain", (0, 2)), ("chain", (2, 0)), ("star", (0, 3)), ("star", (3, 2)))
-                          for o in _GS_OPTS for p in (None, "sites")],
+                          for o in _GS_OPTS for p in (None, "sites")]
+                         + [{"geom": g, "where": w, "opt": o, "path": None, "entry": e}
+                            for g, w, o in (("chain", (0, 2), "plain"), ("star", (3, 2), "dagger"), ("chain", (2, 0), "transpose"))
+                            for e in ("gate_simple", "long_range(inplace=False)", "long_range(inplace=True)")],
             numeric_required=True, num_trials=3)
-def gate_simple_long_range(mk, geom, where, opt, path):
+def gate_simple_long_range(mk, geom, where, opt, path, entry="gate_simple_"):
     """gate_simple_ on a NON-adjacent pair (gate routed along the connecting path, default path and explicit site path).
     The chained factorisations (3 SVD + 2 QR) put the value identity beyond the certificate search of the quick tier, so
     here the real routine runs on symbolic arrays for the label / tag / gauge-store plumbing only (solver-free structural
@@ -812,12 +836,28 @@ def gate_simple_long_range(mk, geom, where, opt, path):
         before = physical_dense(psi, g0, sinds).reshape(-1)
     old = dict(stubs.OPTIONS)
     stubs.OPTIONS["contracts"] = False        # structural goals only: fresh factors of the right shapes, NO contract assumed
+    recv = psi
+    psi0_copy = psi.copy()
     try:
-        out = psi.gate_simple_(G, where, gauges, cutoff=0.0, renorm=False, smudge=0.0, **kw)
+        if entry == "gate_simple_":
+            out = psi.gate_simple_(G, where, gauges, cutoff=0.0, renorm=False, smudge=0.0, **kw)
+        elif entry == "gate_simple":
+            out = psi.gate_simple(G, where, gauges, cutoff=0.0, renorm=False, smudge=0.0, **kw)
+        else:
+            # the long-range routine called directly (it is the documented fallback of gate_simple and a public function)
+            out = ag.tensor_network_ag_gate_simple_long_range(psi, G, where, gauges, cutoff=0.0, renorm=False, smudge=0.0,
+                                                              inplace=entry.endswith("(inplace=True)"), **kw)
     finally:
         stubs.OPTIONS.update(old)
-    lab = f"gate_simple_({opt}) long-range where={where} path={path}"
-    mk.same(f"{lab}: returns the receiver", out is psi, True)
+    lab = f"{entry}({opt}) long-range where={where} path={path}"
+    inplace = entry in ("gate_simple_", "long_range(inplace=True)")
+    mk.same(f"{lab}: returns the receiver iff in place", out is recv, inplace)
+    if not inplace:
+        mk.same(f"{lab}: receiver labels / tags untouched", ([tuple(t.inds) for t in recv], [set(t.tags) for t in recv]),
+                ([tuple(t.inds) for t in psi0_copy], [set(t.tags) for t in psi0_copy]))
+        mk.eq(f"{lab}: receiver tensors untouched (only the gauge store is updated in place, as documented)",
+              np.concatenate([np.asarray(t.data).reshape(-1) for t in recv]), np.concatenate([np.asarray(t.data).reshape(-1) for t in psi0_copy]))
+    psi = out
     mk.same(f"{lab}: outer labels unchanged", set(out.outer_inds()), set(sinds))
     mk.same(f"{lab}: tensors keep their labels and tags (no temporary tags left)", ([set(t.inds) for t in out], [set(t.tags) for t in out]), (inds0, tags0))
     mk.same(f"{lab}: gauge store keyed by exactly the bonds, vectors of the bond sizes", {k: tuple(np.shape(v)) for k, v in gauges.items()},
